@@ -4,6 +4,7 @@ import (
 	"encoding/binary"
 	"fmt"
 	"hash/fnv"
+	"os"
 	"strings"
 	"time"
 
@@ -34,10 +35,14 @@ const (
 	sT3            // third transactional producer: only in the three-producer pass
 	sC3
 	sA3
+	sN1 // producer 1: AddPartitionsToTxn(p0) without data (begins a transaction if none is open); classic flavour only
+	sN2 // ... producer 2
+	sS1 // producer 1, fenced by a timeout abort and not yet re-initialised: transactional produce with the stale epoch (must be rejected); KIP-890 flavour only
+	sS2 // ... producer 2
 	nSym
 )
 
-var symName = [nSym]string{"I", "R", "O", "P", "Q", "T1", "T2", "C1", "A1", "C2", "A2", "X", "D", "F", "G", "T3", "C3", "A3"}
+var symName = [nSym]string{"I", "R", "O", "P", "Q", "T1", "T2", "C1", "A1", "C2", "A2", "X", "D", "F", "G", "T3", "C3", "A3", "N1", "N2", "S1", "S2"}
 
 func histString(h []sym) string {
 	var sb strings.Builder
@@ -77,6 +82,14 @@ const (
 	committed = 1
 	aborted   = 2
 )
+
+// staleOn enables S1/S2 (opt-in, C32_STALE=1). Off by default because the
+// unchanged kfake disagrees with a real broker there: a Produce v12 rejected
+// with INVALID_PRODUCER_EPOCH still registers the partition and begins a
+// transaction (pids.get runs before the epoch check), which later times out and
+// writes an ABORT marker that Kafka would never write ("T1 X S1 T2 X" in the
+// KIP-890 flavour: key hwm@X). Reported to the orchestrator; not decided here.
+var staleOn = os.Getenv("C32_STALE") != ""
 
 var (
 	txids      = [nProd]string{"", "c32-tx1", "c32-tx2", "c32-tx3"}
@@ -202,6 +215,14 @@ func (m *model) enabled(s sym) bool {
 		return m.prods[2].open
 	case sC3, sA3:
 		return m.prods[3].open
+	case sN1:
+		return !m.tv2 && !m.prods[1].open
+	case sN2:
+		return !m.tv2 && !m.prods[2].open
+	case sS1:
+		return staleOn && m.tv2 && m.prods[1].fenced
+	case sS2:
+		return staleOn && m.tv2 && m.prods[2].fenced
 	case sX:
 		return m.prods[1].open || m.prods[2].open || m.prods[3].open
 	case sD:
@@ -551,6 +572,14 @@ func (m *model) exec(s sym, h *harness) {
 		m.doEnd(h, 3, true)
 	case sA3:
 		m.doEnd(h, 3, false)
+	case sN1:
+		m.doRegister(h, 1)
+	case sN2:
+		m.doRegister(h, 2)
+	case sS1:
+		m.doStale(h, 1)
+	case sS2:
+		m.doStale(h, 2)
 	case sX:
 		m.doTick(h)
 	case sD:
@@ -662,40 +691,50 @@ func (m *model) doGap(h *harness) {
 	}
 }
 
+// beginTxn opens producer k's transaction: in the classic flavour with an
+// explicit AddPartitionsToTxn(p0); in the KIP-890 flavour the first produce
+// adds the partition implicitly.
+func (m *model) beginTxn(h *harness, k int) bool {
+	pr := &m.prods[k]
+	if h != nil && !m.tv2 {
+		req := kmsg.NewPtrAddPartitionsToTxnRequest()
+		req.Version = 3
+		req.TransactionalID = txids[k]
+		req.ProducerID, req.ProducerEpoch = pr.pid, pr.epoch
+		rt := kmsg.NewAddPartitionsToTxnRequestTopic()
+		rt.Topic = topic
+		rt.Partitions = []int32{0}
+		req.Topics = append(req.Topics, rt)
+		r := h.do(req)
+		if r == nil {
+			return false
+		}
+		resp := r.(*kmsg.AddPartitionsToTxnResponse)
+		if len(resp.Topics) != 1 || len(resp.Topics[0].Partitions) != 1 || resp.Topics[0].Partitions[0].ErrorCode != 0 {
+			code := int16(-1)
+			if len(resp.Topics) == 1 && len(resp.Topics[0].Partitions) == 1 {
+				code = resp.Topics[0].Partitions[0].ErrorCode
+			}
+			h.fail("add-partitions-error", "AddPartitionsToTxn(producer %d) error code %d", k, code)
+			return false
+		}
+		h.logf("AddPartitionsToTxn(producer %d, p0) -> ok", k)
+	}
+	pr.open = true
+	pr.txn = int16(len(m.outcome))
+	m.outcome = append(m.outcome, pending)
+	pr.start = m.now
+	pr.first = -1
+	return true
+}
+
 func (m *model) doTxnProduce(h *harness, k int) {
 	if !m.ensureInit(h, k) {
 		return
 	}
 	pr := &m.prods[k]
-	if !pr.open {
-		if h != nil && !m.tv2 {
-			req := kmsg.NewPtrAddPartitionsToTxnRequest()
-			req.Version = 3
-			req.TransactionalID = txids[k]
-			req.ProducerID, req.ProducerEpoch = pr.pid, pr.epoch
-			rt := kmsg.NewAddPartitionsToTxnRequestTopic()
-			rt.Topic = topic
-			rt.Partitions = []int32{0}
-			req.Topics = append(req.Topics, rt)
-			r := h.do(req)
-			if r == nil {
-				return
-			}
-			resp := r.(*kmsg.AddPartitionsToTxnResponse)
-			if len(resp.Topics) != 1 || len(resp.Topics[0].Partitions) != 1 || resp.Topics[0].Partitions[0].ErrorCode != 0 {
-				code := int16(-1)
-				if len(resp.Topics) == 1 && len(resp.Topics[0].Partitions) == 1 {
-					code = resp.Topics[0].Partitions[0].ErrorCode
-				}
-				h.fail("add-partitions-error", "AddPartitionsToTxn(producer %d) error code %d", k, code)
-				return
-			}
-		}
-		pr.open = true
-		pr.txn = int16(len(m.outcome))
-		m.outcome = append(m.outcome, pending)
-		pr.start = m.now
-		pr.first = -1
+	if !pr.open && !m.beginTxn(h, k) {
+		return
 	}
 	b := m.appendChecked(h, 0, k, txids[k], m.newVals(m.nrec()))
 	if b == nil {
@@ -707,6 +746,37 @@ func (m *model) doTxnProduce(h *harness, k int) {
 	b.txn = pr.txn
 	if pr.first < 0 {
 		pr.first = b.base
+	}
+}
+
+// doRegister is N_k: the transaction is begun and p0 registered in it, but no
+// data is produced. Like a real broker, the model writes the end marker to
+// every registered partition (so a later C/A/timeout appends one control batch
+// to p0), the LSO is not held back by a registered-but-empty partition, and no
+// aborted-transaction range exists for it.
+func (m *model) doRegister(h *harness, k int) {
+	if !m.ensureInit(h, k) {
+		return
+	}
+	m.beginTxn(h, k)
+}
+
+// doStale is S_k: producer k's transaction was aborted by the timeout (the
+// broker bumped its epoch) and the client, not having noticed, sends a
+// transactional batch with the old epoch. It must be rejected and nothing may
+// be appended.
+func (m *model) doStale(h *harness, k int) {
+	vals := m.newVals(m.nrec())
+	if h == nil {
+		return
+	}
+	pr := &m.prods[k]
+	code, base, ok := h.produce(m.tv2, 0, pr.pid, pr.epoch, pr.seq, txids[k], nowMs(), vals)
+	if !ok {
+		return
+	}
+	if code == 0 {
+		h.fail("stale-epoch-accepted", "transactional batch of producer %d with epoch %d accepted (base %d) after its transaction timed out and the epoch was bumped", k, pr.epoch, base)
 	}
 }
 
